@@ -302,3 +302,17 @@ def run_shipped(task):
                                                          "%d" % (inst["name"], len(nos), ref), inst, 0)
     res["wall"] = time.time() - t0
     return res
+
+
+def replay_shipped(task):
+    """Re-runs the recorded instance (all its configurations) through the validators."""
+    import framework.props.shippedrun as me
+
+    name = task["witness"]["instance"]
+    saved = me.instances
+    me.instances = lambda tier: [x for x in saved("thorough") if x["name"] == name]
+    try:
+        r = run_shipped({"tier": "thorough", "chunk": 0, "nchunks": 1})
+    finally:
+        me.instances = saved
+    return {"fails": r["fails"]}
